@@ -46,6 +46,20 @@ def manager_wait_once(mt, obs):
         obs.saw_shutdown()
 
 
+def manager_watch(mt, obs):
+    # the manager thread's loop reduced to its wait: it ends when it declares the pool broken
+    while True:
+        item, broken, bpe = mt.wait_result_broken_or_wakeup()
+        if broken:
+            obs.waited(broken)
+            return
+
+
+def crashing_worker(ptable, me):
+    # environment: worker `me` is killed at an arbitrary instant after it was started
+    ptable.crash(me)
+
+
 def manager_terminate(mt, obs):
     mt.terminate_broken(obs.the_bpe())
 
@@ -81,3 +95,8 @@ def env_worker_holding(callq, resq_w, ptable, me, item):
     # the same worker, already holding a dispatched call item
     resq_w.put_result(item)
     env_worker(callq, resq_w, ptable, me)
+
+
+def tracker_user(rt, obs):
+    rt.ensure_running()
+    obs.ensured()
